@@ -232,13 +232,20 @@ theorem posUpdate (positions : List Nat) (count s pi d : Nat) (hs : s < count) (
 /-! ### the loop against `Spec.Subst.applyRecords` -/
 
 /-- a glyph the contextual matchers treat as the specification does: not flagged default-ignorable, a 16-bit glyph id, and a
-    mask that is not zero (`context_match` iterators test `mask & 0xFFFFFFFF`; in a shaping run the global bit is always set) -/
-def CtxG (y : Info) : Prop := unicodeProps y &&& 0x20 = 0 ∧ y.gid < 65536 ∧ y.mask &&& U32MAX ≠ 0
+    mask with at least one feature bit (`context_match` iterators test `mask & 0xFFFFFFFF ≠ 0`; in a shaping run the global
+    bit is always set; stated on the feature bits because the glyph-flag bits come and go) -/
+def CtxG (y : Info) : Prop := unicodeProps y &&& 0x20 = 0 ∧ y.gid < 65536 ∧ y.mask &&& (U32MAX - Flag.DEFINED) ≠ 0
 
 instance (y : Info) : Decidable (CtxG y) := by unfold CtxG; exact inferInstance
 
 theorem CtxG.notDI {y : Info} (h : CtxG y) : isDefaultIgnorable y = false := by
   unfold isDefaultIgnorable; simp [h.1]
+
+theorem CtxG.maskOn {y : Info} (h : CtxG y) : y.mask &&& U32MAX ≠ 0 := by
+  intro h0
+  apply h.2.2
+  have e : U32MAX - Flag.DEFINED = U32MAX &&& (U32MAX - Flag.DEFINED) := by decide
+  rw [e, ← Nat.and_assoc, h0, Nat.zero_and]
 
 theorem moveTo_parts (b : Buf) (i : Nat) (hinv : Inv b) (hi : i ≤ total b)
     (hg : Gen.Buf.ensureGrowOnly = true) (hr : Gen.Buf.moveToRewindReversed = true)
@@ -357,12 +364,13 @@ theorem recLoop_sim (hg : Gen.Buf.ensureGrowOnly = true) (hr : Gen.Buf.moveToRew
       ∃ b' positions' count' endv', applyLookup.loop (recurseAt (m + 1)) c positions count (endv : Int) recs
             = .ok ({ c with buf := b' }, ((endv' : Nat) : Int)) ∧
         RecSt { c with buf := b' } (applyRecords f lm recs gs ps).1 (applyRecords f lm recs gs ps).2 positions' count' endv' T ∧
-        b'.maxLen = c.buf.maxLen ∧ b'.flags = c.buf.flags ∧ endv' + gs.length = endv + (applyRecords f lm recs gs ps).1.length := by
+        b'.maxLen = c.buf.maxLen ∧ b'.flags = c.buf.flags ∧ endv' + gs.length = endv + (applyRecords f lm recs gs ps).1.length ∧
+        b'.outLen + (inP b').length ≤ c.buf.outLen + (inP c.buf).length + recs.length * Gr := by
   intro recs
   induction recs with
   | nil =>
     intro c gs ps positions count endv h _ _ _ _ _ _ _
-    exact ⟨c.buf, positions, count, endv, rfl, h, rfl, rfl, rfl⟩
+    exact ⟨c.buf, positions, count, endv, rfl, h, rfl, rfl, rfl, by simp⟩
   | cons rec rest ih =>
     obtain ⟨s, idx⟩ := rec
     intro c gs ps positions count endv h hf hm hrnd hnest hbud hctx hops
@@ -375,7 +383,9 @@ theorem recLoop_sim (hg : Gen.Buf.ensureGrowOnly = true) (hr : Gen.Buf.moveToRew
     · -- sequence index out of range: skipped on both sides
       have hnone : ps[s]? = none := List.getElem?_eq_none (by rw [h.cnt]; exact hs)
       rw [loop_skip _ c positions count _ s idx rest h.succ hs, applyRecords_cons_none f lm s idx rest gs ps hnone]
-      exact ih c gs ps positions count endv h hf hm hrnd hnest' (by omega) (by omega) (by omega)
+      obtain ⟨b', positions', count', endv', hrun, hst', hml', hfl', hacc, htl⟩ :=
+        ih c gs ps positions count endv h hf hm hrnd hnest' (by omega) (by omega) (by omega)
+      exact ⟨b', positions', count', endv', hrun, hst', hml', hfl', hacc, by simp only [List.length_cons]; rw [hmul]; omega⟩
     · have hslt : s < count := by omega
       have hsps : s < ps.length := by rw [h.cnt]; exact hslt
       obtain ⟨pi, hpi⟩ : ∃ pi, ps[s]? = some pi := ⟨ps[s], List.getElem?_eq_getElem hsps⟩
@@ -448,7 +458,8 @@ theorem recLoop_sim (hg : Gen.Buf.ensureGrowOnly = true) (hr : Gen.Buf.moveToRew
             rw [hseq1]; exact htailL
           · show ∀ y ∈ outP b1 ++ inP b1, CtxG y
             rw [hseq1]; exact hglyphL
-        obtain ⟨b', positions', count', endv', hrun, hst', hml', hfl', hacc⟩ :=
+        have hi1l : (inP b1).length = L.length - pi := by rw [hi1]; simp
+        obtain ⟨b', positions', count', endv', hrun, hst', hml', hfl', hacc, htl⟩ :=
           ih { c with buf := { b1 with maxOps := b1.maxOps - 1 } } gs ps positions count endv hst hf hm hrnd hnest'
             (by
               show b1.outLen + (inP b1).length + rest.length * Gr ≤ b1.maxLen
@@ -456,7 +467,10 @@ theorem recLoop_sim (hg : Gen.Buf.ensureGrowOnly = true) (hr : Gen.Buf.moveToRew
               rw [hol1, hml1, this]; omega)
             (by omega)
             (by show (rest.length : Int) ≤ b1.maxOps - 1; rw [hops1]; omega)
-        exact ⟨b', positions', count', endv', hrun, hst', by rw [hml']; exact hml1, by rw [hfl']; exact hfl1, hacc⟩
+        refine ⟨b', positions', count', endv', hrun, hst', by rw [hml']; exact hml1, by rw [hfl']; exact hfl1, hacc, ?_⟩
+        have htl' : b'.outLen + (inP b').length ≤ b1.outLen + (inP b1).length + rest.length * Gr := htl
+        rw [hol1, hi1l] at htl'
+        simp only [List.length_cons]; rw [hmul, hinl]; omega
       | some ss =>
         rw [hss] at hmodel hspec
         simp only [] at hmodel
@@ -543,15 +557,21 @@ theorem recLoop_sim (hg : Gen.Buf.ensureGrowOnly = true) (hr : Gen.Buf.moveToRew
           rw [hops2]; show (rest.length : Int) ≤ b1.maxOps - 1; rw [hops1]; omega
         have hacc2 : ∀ e' (gsF : List G), e' + gs2.length = endv + d + gsF.length → e' + gs.length = endv + gsF.length := by
           intro e' gsF he; omega
+        have htot2 : ∀ t : Nat, t ≤ b2.outLen + (inP b2).length + rest.length * Gr →
+            t ≤ c.buf.outLen + (inP c.buf).length + (rest.length + 1) * Gr := by
+          intro t ht
+          have h1 : total b2 = b2.outLen + (inP b2).length := by unfold total; rw [inP_length b2 hinv2]
+          have h2 : total b2 = L.length + d := by unfold total; rw [hnew, htot']
+          rw [hmul, hinl]; omega
         by_cases hd0 : d = 0
         · subst hd0
           rw [loop_zero _ c positions count _ s idx rest b1 { c with buf := b2 } pi h.succ hslt hpos h.inv.have_out (by omega) hmv
             (by rw [hops1]; omega) hrec hho2 (by simpa using hnew)]
           have hst := hst2 positions (by simpa using h.cle) (by rw [posAfter_zero]; simpa using h.pos)
           simp only [Nat.add_zero] at hst
-          obtain ⟨b', positions', count', endv', hrun, hst', hml', hfl', hacc⟩ :=
+          obtain ⟨b', positions', count', endv', hrun, hst', hml', hfl', hacc, htl⟩ :=
             ih { c with buf := b2 } gs2 (posAfter ps s pi 0) positions count endv hst hf hm hrnd hnest' hbud2 (by omega) hops2'
-          refine ⟨b', positions', count', endv', hrun, hst', ?_, ?_, ?_⟩
+          refine ⟨b', positions', count', endv', hrun, hst', ?_, ?_, ?_, htot2 _ htl⟩
           · rw [hml']; show b2.maxLen = _; rw [hml2]; exact hml1
           · rw [hfl']; show b2.flags = _; rw [hfl2]; exact hfl1
           · exact hacc2 endv' _ (by simpa using hacc)
@@ -562,9 +582,9 @@ theorem recLoop_sim (hg : Gen.Buf.ensureGrowOnly = true) (hr : Gen.Buf.moveToRew
             (by rw [hops1]; omega) hrec hho2 hnew hdpos (by omega) (by omega)]
           simp only [bind, Except.bind, hcw, hfill]
           have hst := hst2 _ (by simpa using hQl) hQt
-          obtain ⟨b', positions', count', endv', hrun, hst', hml', hfl', hacc⟩ :=
+          obtain ⟨b', positions', count', endv', hrun, hst', hml', hfl', hacc, htl⟩ :=
             ih { c with buf := b2 } gs2 (posAfter ps s pi d) _ (count + d) (endv + d) hst hf hm hrnd hnest' hbud2 (by omega) hops2'
-          refine ⟨b', positions', count', endv', hrun, hst', ?_, ?_, ?_⟩
+          refine ⟨b', positions', count', endv', hrun, hst', ?_, ?_, ?_, htot2 _ htl⟩
           · rw [hml']; show b2.maxLen = _; rw [hml2]; exact hml1
           · rw [hfl']; show b2.flags = _; rw [hfl2]; exact hfl1
           · exact hacc2 endv' _ hacc
